@@ -2,7 +2,7 @@
    Per-mechanism statements for all inputs; the trace-level multiset equality
    is checked by the closure oracle on the implementation and by correspondence. *)
 Require Import NX.Base.Prelude NX.Base.ListX NX.Model.PQ NX.Model.Sim.
-Require Import NX.Proofs.SimBasic NX.Proofs.SimSched NX.Proofs.NetProofs.
+Require Import NX.Proofs.SimBasic NX.Proofs.SimSched NX.Proofs.NetProofs NX.Proofs.NetTrace.
 
 (* A send creates one delivery per connection whose filter accepts the value,
    carrying the mapped value, in connection order - and nothing else. *)
@@ -54,6 +54,27 @@ Theorem c03_ok_means_all_consumed :
     (classify b s = ROk <-> forall m q, nth_error (boxes s) m = Some q -> q = []).
 Proof. intros b s H1 H2. exact (proj1 (classify_meaning b s H1 H2)). Qed.
 Print Assumptions c03_ok_means_all_consumed.
+
+(* Trace level, for ANY execution (any sequence of enabled steps = any schedule,
+   any number of steps) and any mailbox: its content is its initial content
+   followed by the messages enqueued into it, in enqueue order, minus the prefix
+   consumed by its owner.  Nothing lost, duplicated, reordered or invented; the
+   owner consumes exactly the first deqs messages, in order. *)
+Theorem c03_mailbox_trace :
+  forall b ls s s' m q,
+    net_exec b s ls = Some s' -> nth_error (boxes s) m = Some q ->
+    deqs b s ls m <= length (q ++ enqs b s ls m) /\
+    nth_error (boxes s') m = Some (skipn (deqs b s ls m) (q ++ enqs b s ls m)).
+Proof. exact mailbox_trace. Qed.
+Print Assumptions c03_mailbox_trace.
+
+(* a run of the executor under any choice sequence is such an execution, ending
+   in a state where no step is enabled *)
+Theorem c03_mailbox_trace_run :
+  forall b fuel ch s nd s' nd',
+    net_run b fuel ch s nd = Some (s', nd') -> exists ls, net_exec b s ls = Some s' /\ net_enabled b s' = [].
+Proof. exact net_run_is_exec. Qed.
+Print Assumptions c03_mailbox_trace_run.
 
 (* non-vacuity: broadcast through plain / map / filter_map connections to two
    models and a sink with a capacity-1 mailbox (the sender blocks) *)
